@@ -98,7 +98,7 @@ def run(pid, tier, seed, njobs=None):
             if j["sched"].get("kind") == "os":
                 j["sched"] = gen.schedule(rng, len(j["threads"]))
             jobs.append(j)
-    res = lib.run_jobs(jobs, "c11", procs=8, timeout=900)
+    res = lib.run_jobs(jobs, "c11", procs=8, timeout=1800)
     projected, byid, outcomes = [], {}, {}
     parks = spins = 0
     for job, trace, crash in res:
